@@ -107,13 +107,22 @@ def run(chk):
 
 def senders(chk, prog, names, cell, keyv):
     cg, fa = cc.scans(prog)
-    short = lambda p: p.split("::")[-1]
-    for field, allowed in (("keyboard", {"send_key"}), ("keyboard_sinclair", {"send_sinclair_key"}),
-                           ("keyboard_extended", {"send_compound_key"}), ("caps_shift_modifier_mask", {"send_compound_key"})):
-        got = cc.effective_writers(prog, cg, fa, names, names.CTL, field, allowed)
-        chk.check(got == allowed, "T-WRITERS/ZXController.%s" % field, "%s is written by %s; allowed %s" % (field, sorted(got), sorted(allowed)))
+    # the matrices and the hold mask are located by role (which state the public senders change), so that renaming them or
+    # grouping them in a struct of their own does not matter; who-may-write is then asked of the field that holds them
+    roles = cc.keyboard_roles(prog, names)
+    for role, allowed, label in (("main", {"send_key"}, "keyboard"), ("sinclair", {"send_sinclair_key"}, "keyboard_sinclair"),
+                                 ("extended", {"send_compound_key"}, "keyboard_extended"), ("mask", {"send_compound_key"}, "caps_shift_modifier_mask")):
+        adt, field = roles[role][2][-1]
+        got = cc.effective_writers(prog, cg, fa, names, adt, field, allowed)
+        chk.check(got == allowed, "T-WRITERS/ZXController.%s" % label, "%s (%s.%s) is written by %s; allowed %s" % (label, adt.split("::")[-1], field, sorted(got), sorted(allowed)))
+        # the enclosing structs may be replaced as a whole only by the constructor
+        for adt2, field2 in roles[role][2][:-1]:
+            senders_ = {"send_key", "send_sinclair_key", "send_compound_key", "new"}
+            got2 = cc.effective_writers(prog, cg, fa, names, adt2, field2, senders_)
+            chk.check(got2 <= senders_, "T-WRITERS/ZXController.%s/enclosing" % label, "%s.%s, which holds %s, is borrowed mutably or overwritten by %s" % (
+                adt2.split("::")[-1], field2, label, sorted(got2 - senders_)))
     # press / release arithmetic for one representative key per row (the cell table is decided above for all 40)
-    fi = lambda n: prog.field_index(names.CTL, n)
+    mpath, mname = roles["main"][0], roles["main"][1]
     for kn in ("Shift", "G", "E", "N4", "N0", "Y", "L", "B"):
         row, mask = cell.get(kn, (None, None))
         if row is None:
@@ -121,31 +130,29 @@ def senders(chk, prog, names, cell, keyv):
         for pressed in (1, 0):
             w = Walker(prog)
             st = cc.controller_state(w, prog, names, "Sinclair48K")
+            init = st.store[cc.CTL]
             rs = w.run(prog.fn(names.ctl("send_key")), [Ref(cc.CTL, (), True), keyv(kn), K(pressed, 1)], genv=cc.GENV, state=st)
             key = "T-BITS/ZXController::send_key/%s" % ("press" if pressed else "release")
             if len(rs) != 1 or rs[0].outcome != "return":
                 chk.fail(key + "/paths", "paths %s" % [(r.outcome, r.detail) for r in rs][:2])
                 continue
-            kb = rs[0].store[cc.CTL].fields[fi("keyboard")]
-            ok = True
-            for n in range(8):
-                old = tm.sym("ctl.keyboard[%d]" % n, 8)
-                v = kb.fields[n] if isinstance(kb, Agg) else None
-                if isinstance(v, SymObj):
-                    v = old
-                if n == row:
-                    want = tm.binop("and", old, K(~mask & 0xFF, 8)) if pressed else tm.binop("or", old, K(mask, 8))
-                    ok = ok and isinstance(v, T) and tm.equiv(v, want) is True
-                else:
-                    ok = ok and (v is old)
-            chk.check(ok, key, "send_key(%s, %s) does not %s exactly bit %s of row %d" % (kn, bool(pressed), "clear" if pressed else "set", mask, row))
+            ctl2 = rs[0].store[cc.CTL]
+            diff = cc.tree_diff(prog, init, ctl2)
+            old = tm.sym("%s[%d]" % (mname, row), 8)
+            v = cc.leaf_term(cc.tree_get(ctl2, mpath + (row,)))
+            want = tm.binop("and", old, K(~mask & 0xFF, 8)) if pressed else tm.binop("or", old, K(mask, 8))
+            ok = diff in ([mpath + (row,)], []) and v is not None and tm.equiv(v, want) is True
+            chk.check(ok, key, "send_key(%s, %s) does not %s exactly bit %s of row %d (state changed: %s, cell %s)" % (
+                kn, bool(pressed), "clear" if pressed else "set", mask, row, diff, v))
             chk.count("sender-cases")
     chk.floor("sender-cases", 16)
 
 
 def compound_release(chk, prog, names, CK):
-    fi = lambda n: prog.field_index(names.CTL, n)
-    M = tm.sym("ctl.caps_shift_modifier_mask", 32)
+    roles = cc.keyboard_roles(prog, names)
+    epath, ename = roles["extended"][0], roles["extended"][1]
+    kpath, kname = roles["mask"][0], roles["mask"][1]
+    M = tm.sym(kname, 32)
     for cn, prim in COMPOUND.items():
         for pressed in (1, 0):
             w = Walker(prog)
@@ -159,14 +166,11 @@ def compound_release(chk, prog, names, CK):
             bit = 1 << list(COMPOUND).index(cn)
             for r in rs:
                 ctl = r.store[cc.CTL]
-                m2 = ctl.fields[fi("caps_shift_modifier_mask")]
-                kbe = ctl.fields[fi("keyboard_extended")]
-                shift = kbe.fields[0] if isinstance(kbe, Agg) else None
-                if isinstance(shift, SymObj):
-                    shift = tm.sym("ctl.keyboard_extended[0]", 8)
-                old_shift = tm.sym("ctl.keyboard_extended[0]", 8)
+                m2 = cc.leaf_term(cc.tree_get(ctl, kpath))
+                old_shift = tm.sym("%s[0]" % ename, 8)
+                kbe = cc.tree_get(ctl, epath)
+                shift = cc.leaf_term(kbe.fields[0]) if isinstance(kbe, Agg) else old_shift
                 if pressed:
-                    ok = isinstance(m2, T) and tm.equiv(m2, tm.binop("or", M, tm.sym("x", 32))) is not True  # placeholder never true
                     ok = isinstance(m2, T) and tm.deps(m2) <= tm.deps(M) and bin(int(tm.known_bits(m2)[1])).count("1") == 1
                     chk.check(ok, key + "/mask", "press does not set exactly one modifier bit: %s" % (m2,))
                     # CAPS SHIFT held: bit 0 of row 0 cleared (the primary key may share row 0 only for none of the 7)
@@ -176,11 +180,11 @@ def compound_release(chk, prog, names, CK):
                     if zero is None:
                         zero = decide_zero(r, m2)
                     rel = isinstance(shift, T) and tm.bv(shift)[0] == 1
-                    keep = isinstance(shift, T) and tm.bv(shift)[0] == ("c", "ctl.keyboard_extended[0]", 0, False)
+                    keep = isinstance(shift, T) and tm.bv(shift)[0] == ("c", "%s[0]" % ename, 0, False)
                     chk.check(zero is not None and ((zero and rel) or (not zero and keep)), key + "/shift-last",
                               "release with other compound keys held=%s: CAPS SHIFT bit becomes %s" % (None if zero is None else not zero, tm.bv(shift)[0] if isinstance(shift, T) else shift))
-                    ok = isinstance(m2, T) and all(tm.bv(m2)[j] == ("c", "ctl.caps_shift_modifier_mask", j, False) or tm.bv(m2)[j] == 0 for j in range(32)) and \
-                        sum(1 for j in range(32) if tm.bv(tm.subst(m2, {}) if False else m2)[j] == 0) >= 1
+                    ok = isinstance(m2, T) and all(tm.bv(m2)[j] == ("c", kname, j, False) or tm.bv(m2)[j] == 0 for j in range(32)) and \
+                        sum(1 for j in range(32) if tm.bv(m2)[j] == 0) >= 1
                     chk.check(ok or (isinstance(m2, T) and m2.is_const()), key + "/mask", "release does not clear just its own modifier bit: %s" % (m2,))
                 chk.count("compound-paths")
     chk.floor("compound-paths", 14)
